@@ -6,11 +6,16 @@ Three checks on the REAL functions (oracle: spec/searches.py, written from the s
             9 operators x POOL haystacks x POOL needles (needle = str(member) for all nine
             methods, plus the raw member for the five order/equality methods), enumerated
             completely.  Equals the oracle; never raises for a well-formed term (needle a
-            str - or any scalar for the 5 order/equality methods -, a valid pattern for
-            REGEX; invalid patterns are counted out of scope, they belong to C15).
+            str, a valid pattern for REGEX; invalid patterns are counted out of scope, they
+            belong to C15).  The statement quantifies over search TERMS, which are text: a
+            disagreement that only occurs with a raw non-str needle (a document scalar, as the
+            keyword scans pass it) is from-code and counted out of scope "C12/raw-needle-...".
+            Numeric rules use the typed values; every textual rule the value's own text
+            str(haystack).  An anchored boolean (ruamel ScalarBoolean, an int subclass) is a
+            boolean document value: the oracle sees it as the bool it denotes.
 2. random - the same contract on seeded random scalars.
-3. inversion - for every list / hash / set document of rtc.gen.trees with N <= 3 nodes (thorough 4)
-            and a seeded sample of the documents one node larger,
+3. inversion - for every list / hash / set / scalar document of rtc.gen.trees with N <= 3 nodes (thorough 4)
+            and a seeded sample (quick 800, thorough 8000) of the documents one node larger,
             attr in {., a}, every operator and a small term pool: the plain search segment
             `[attr OP term]` yields exactly the candidates whose compared value satisfies the
             operator oracle, and `[attr!OP term]` yields exactly the other candidates.
@@ -19,7 +24,8 @@ Three checks on the REAL functions (oracle: spec/searches.py, written from the s
                     an element without the attribute does not match the plain search);
               hash: with `.` its values (compared value: the key); with an attr it has: that
                     one value; with an attr it lacks: the hash itself (never matches plain);
-              set : its members (attr `.` only).
+              set : its members (attr `.` only);
+              scalar: the value itself (attr `.` only).
             Compared values that are containers are outside the statement ("every scalar
             value"): only the complement law is checked for them.  An Array-of-Hashes
             searched with `.` tests key membership (from-code): complement law only.
@@ -35,7 +41,7 @@ import traceback
 import warnings
 
 from rtc import gen, pathgen
-from rtc.harness import Collector, pmap_chunks, stable_hash
+from rtc.harness import Collector, pmap_chunks
 from spec.searches import spec_search_matches, typed as spec_typed
 
 warnings.simplefilter("ignore")
@@ -173,8 +179,9 @@ def classify_mismatch(method, needle, hay):
         except Exception:
             tv = hay
         th = spec_typed(hay)
-        if isinstance(th, str) and not (isinstance(tv, str) and tv == hay):
+        if isinstance(th, str) and not (isinstance(tv, str) and tv == hay) and str(tv) != str(hay):
             # typed_value turned text into a non-numeric Python literal (list, tuple, quoted str, complex ...)
+            # whose text differs from the value's own text
             return "C12/haystack-text-replaced-by-evaluated-python-literal"
         if type(th) is not type(tv):
             return "C12/typed-value-disagrees-on-%s" % kind(hay).split("~")[0]
@@ -340,7 +347,11 @@ def candidates(data, attr):
         for m in data:
             out.append((m, m, True, m, True))
         return "set", out
-    raise ValueError("not a searchable container")
+    if data is not None and not is_container(data):
+        if attr != ".":
+            raise ValueError("harness: a scalar is searched with attr '.' only")
+        return "scalar", [(ROOT, data, True, data, True)]      # the value itself is the one candidate
+    raise ValueError("not a searchable node")
 
 
 def run_query(proc, path):
@@ -470,12 +481,16 @@ def inversion_docs(max_nodes, sample_nodes=None, sample_size=0, rng=None):
         elif isinstance(t, (list, dict)):
             docs.append((gen.to_yaml(t), "."))
             docs.append((gen.to_yaml(t), "a"))
+        elif t is not None:
+            docs.append((gen.to_yaml(t), "."))          # a scalar searched with `.`: the value itself
     # the canonical known case and a few anchored-boolean / look-alike values beyond the tree alphabet
     extra = ("[{a: 1}, {b: 2}]", "[{a: 1}, {b: 2}, {a: 2}, 3]", "[&y true, true, false]", "{a: &y true}",
              "[{a: \"'x'\"}, {a: x}]", "[\"[1, 2]\", \"[1,2]\"]", "[1.5, \"1.50\", 1, \"1\", true, \"true\", null]")
     for d in extra:
         docs.append((d, "."))
         docs.append((d, "a"))
+    for d in ("1.5", "\"1.50\"", "b", "\"'x'\"", "false", "2001-01-01"):
+        docs.append((d, "."))
     return docs
 
 
@@ -517,7 +532,7 @@ def run(tier="quick", seed=0, jobs=None):
     n_rand = col.evaluations - n_grid
     # 3. inversion: complete up to N nodes, seeded sample one size above
     max_nodes = 4 if thorough else 3
-    sample_size = 20000 if thorough else 800
+    sample_size = 8000 if thorough else 800
     terms = TERMS_THOROUGH if thorough else TERMS_QUICK
     docs = inversion_docs(max_nodes, max_nodes + 1, sample_size, rng)
     rng.shuffle(docs)   # balance the chunks
@@ -531,7 +546,7 @@ def run(tier="quick", seed=0, jobs=None):
         "inversion": {"documents": "every rtc.gen.trees(N<=%d, depth<=3) document with a list/hash/set root + a seeded sample of %d "
                                    "documents with N=%d + %d hand-picked" % (max_nodes, sample_size, max_nodes + 1, 7),
                       "doc_x_attr": len(docs), "attrs": [".", "a"], "operators": 9, "terms": list(terms),
-                      "complete": True},
+                      "complete": "all documents with N<=%d; N=%d sampled" % (max_nodes, max_nodes + 1)},
     }
     return col.result(
         rule=("search_matches(method, needle, haystack) == spec_search_matches and never raises, on the complete grid "
